@@ -386,3 +386,113 @@ def run_chain_stores(chk, facts, rule='C03-R32'):
                        'that counter with a bound lies on the way (%s): a chain with enough levels writes behind the array' % (
                            show(t), show(ctr), ' '.join(str(x) for x in w[-4:])))
     return n
+
+
+R33_LISTED = {
+    'asmpars.c:EvalStrExpression:FOps': 'one entry per row of the constant operator table at most; the table has fewer rows '
+                                        'than OPERATOR_MAXCNT (a compile-time fact)',
+    'code78k4.c:DecodeAdr:AdrVals': 'at most three rounds (z <= OpSize < 3) on a freshly cleared address record',
+    'strutil.c:vsprcatf_core:Arg': 'the format strings are the program\'s own: at most three arguments per conversion',
+    'strutil.c:vsprcatf_core:ArgState': 'as for Arg',
+    'cmdarg.c:DecodeLine:EnvStr': 'one entry per blank-separated word of a line that was read into a String (255 characters): '
+                                  'at most 128 words for 256 entries',
+}
+
+
+def run_counted_stores(chk, facts, rule='C03-R33'):
+    chk.rule(rule, 'inside a loop, a store into a fixed-size array at a subscript that contains a counter the same loop steps '
+             'up lies behind a comparison of that counter (loop condition, explicit test, or the condition of a do-while '
+             'whose counter starts at a small constant): the number of rounds is chosen by the input (arguments of a '
+             'function call, components of an operand), the array is not', min_instances=45)
+    from .c03_bounds import array_size
+    n = 0
+    seen = set()
+    for exe in PROGRAMS:
+        P = facts.program(exe)
+        for f in P.all_funcs():
+            if f.entry is None or f.qname in seen:
+                continue
+            seen.add(f.qname)
+            per = {}
+            for h, s0 in f.loops():
+                body = f.loop_body(h, s0)
+                stepped = {}
+                for b in body:
+                    for i, (ln, e) in enumerate(f.blocks[b]['elems']):
+                        for m in walk_own(e):
+                            if (is_incdec(m) and '+' in m[1]) or (is_assign(m) and m[1] == '+='):
+                                stepped[repr(nocast(m[2]))] = nocast(m[2])
+                if not stepped:
+                    continue
+                for b in sorted(body):
+                    for i, (ln, e) in enumerate(f.blocks[b]['elems']):
+                        for m in walk_own(e):
+                            if not (is_assign(m) or is_incdec(m)):
+                                continue
+                            t = nocast(m[2])
+                            if t[0] != 'i':
+                                continue
+                            sz = array_size(P, f, t[1])
+                            if sz is None:
+                                continue
+                            cs = [x for x in walk(nocast(t[2])) if isinstance(x, (list, tuple)) and repr(nocast(x)) in stepped]
+                            if not cs:
+                                continue
+                            c = nocast(cs[0])
+
+                            def fact(lab, c=c):
+                                return edge_has_atom(lab, lambda a: a[0] == 'cmp' and any(
+                                    isinstance(y, (list, tuple)) and tuple(nocast(y)) == tuple(c)
+                                    for x in (a[2], a[3]) if isinstance(x, (list, tuple)) for y in walk(x)))
+                            ok, w = f.guarded(b, i, fact)
+                            if not ok:
+                                # do-while: every later round comes through the loop condition; the first one starts
+                                # at a constant below the size
+                                o2, w2 = f.guarded(b, i, fact, start=h)
+                                inits = []
+                                if c[0] == 'l':
+                                    for d in f.reaching_defs(b, i, tuple(c)):
+                                        if is_incdec(d) or (is_assign(d) and d[1] != '='):
+                                            continue          # the steps of the loop itself
+                                        inits.append(const_val(nocast(d[3] if is_assign(d) else d[2])))
+                                if o2 and inits and all(v is not None and 0 <= v < sz for v in inits):
+                                    ok = True
+                            if not ok and c[0] == 'l' and is_assign(m) and m[1] == '=':
+                                # compaction in place: A[c++] = A[v] with v a compared index of the same array and c
+                                # starting at 0 and stepped only here: c <= v
+                                rd = [x for x in walk(m[3]) if isinstance(x, (list, tuple)) and x and x[0] == 'i' and
+                                      nocast(x[1]) == nocast(t[1]) and nocast(x[2]) != nocast(t[2])]
+                                steps = [d for b2, i2, l2, d in f.nodes() if (is_incdec(d) or (is_assign(d) and d[1] != '='))
+                                         and nocast(d[2]) == c]
+                                zero = [d for d in f.reaching_defs(b, i, tuple(c)) if not (is_incdec(d) or (is_assign(d) and d[1] != '='))]
+                                if rd and len(steps) == 1 and is_incdec(steps[0]) and any(steps[0] is y for y in walk(m[2])) and \
+                                        zero and all(const_val(nocast(d[3] if is_assign(d) else d[2])) == 0 for d in zero):
+                                    v = nocast(rd[0][2])
+
+                                    def factv(lab, v=v):
+                                        return edge_has_atom(lab, lambda a: a[0] == 'cmp' and any(
+                                            isinstance(y, (list, tuple)) and nocast(y) == v
+                                            for x in (a[2], a[3]) if isinstance(x, (list, tuple)) for y in walk(x)))
+                                    if f.guarded(b, i, factv)[0]:
+                                        ok = True
+                            base = t[1]
+                            while isinstance(base, (list, tuple)) and base and nocast(base)[0] == 'i':
+                                base = nocast(base)[1]
+                            base = nocast(base)
+                            nm = base[2].rsplit('.', 1)[-1] if base[0] == 'm' else (base[1] if len(base) > 1 else show(base))
+                            key = '%s:%s:%s' % (f.unit.name, f.name, nm)
+                            cur = per.get(key)
+                            if cur is None or (cur[0] and not ok):
+                                per[key] = (ok, ln, show(t), sz, show(c), w)
+            for key, (ok, ln, st, sz, sc, w) in sorted(per.items()):
+                n += 1
+                why = 'the counter %s is compared on the way to the store' % sc
+                if not ok and key in R33_LISTED:
+                    ok = True
+                    why = 'listed: ' + R33_LISTED[key]
+                    chk.exception(rule, key, R33_LISTED[key])
+                chk.ob(rule, key, ok, f.loc(ln), why if ok else
+                       '%s (%d elements) is stored at a subscript that %s steps up in a loop, and nothing on the way (%s) '
+                       'compares %s with a bound: one round more than the array has elements writes behind it' % (
+                           st, sz, sc, ' '.join(str(x) for x in w[-4:]), sc))
+    return n
